@@ -175,6 +175,16 @@ func genWLCase(r *gen.R, o wlOpts) WLCase {
 		} else {
 			rec = spg.CharRecipe{Length: r.Range(1, 3), Allow: spg.CTFlag(1 << uint(r.Intn(4)))}
 		}
+		switch r.Intn(5) { // characters listed twice, or in a class and a custom string: no exclusion, no requirement
+		case 0:
+			rec.AllowChars = dupSome(r, rec.AllowChars+firstChar(rec.AllowChars+"x"))
+		case 1:
+			if o.smallSepOnly {
+				rec = spg.CharRecipe{Length: 1, Allow: spg.Symbols, AllowChars: "-_+="}
+			} else {
+				rec = spg.CharRecipe{Length: r.Range(1, 2), Allow: spg.Digits | spg.Symbols, AllowChars: "-_+=01"}
+			}
+		}
 		if r.Chance(1, 12) {
 			rec = spg.CharRecipe{Length: 1} // empty alphabet: the separator function swallows the error and yields ""
 		}
